@@ -126,7 +126,7 @@ def stage2(op, il):
         return _cache[key]
     f = op.split(" ")
     core, sec = _sections(il)
-    tab = f[4:]
+    tab = f[4:] + (["F41"] if _f41_token(op) else [])
     cur = f[2]
     lines, meta = [], []
     r = 1
@@ -153,8 +153,27 @@ def stage2(op, il):
     return res
 
 
+_f41 = {}
+
+
+def _f41_token(op):
+    """ops from the corpus were written before the repair of F41 existed: when the source carries it (same source-text marker as
+    harness/appx reads) and the op does not say so, the model is asked again with the token F41"""
+    f = op.split(" ")
+    if f[1] != "sign" or "F41" in f[4:]:
+        return False
+    import appxv
+    return appxv.detect_fx()[0] == "1"
+
+
 def canon_model(op, mres):
     f = op.split(" ")
+    if f[1] == "sign" and _f41_token(op):
+        if op not in _f41:
+            ml = _drive([op + " F41"])[0]
+            _f41.clear()
+            _f41[op] = _split_tag(ml)[0]
+        return _f41[op]
     if f[1] == "fixture" and mres.startswith("ok spec "):
         z = _b(f[2])
         body = mres[len("ok spec "):]
